@@ -498,12 +498,23 @@ fn random_sequence(rng: &mut impl Rng, max_len: usize) -> Vec<Op> {
             match rng.gen_range(0..11) {
                 0..=3 => Op::Start(idx),
                 4..=5 => Op::Stop(idx),
-                6..=7 => Op::Remove(idx, rng.gen()),
-                8 => Op::Die(idx),
+                6 => Op::Remove(idx, rng.gen()),
+                7 | 8 => Op::Die(idx),
                 _ => Op::Upgrade { idx, force: rng.gen(), start: rng.gen() },
             }
         };
+        let died = if let Op::Die(i) = &op { Some(*i) } else { None };
         seq.push(op);
+        // a death is usually followed by an operation on the same service
+        if let Some(i) = died {
+            if rng.gen_bool(0.7) && seq.len() < len {
+                seq.push(match rng.gen_range(0..4) {
+                    0 | 1 => Op::Stop(i),
+                    2 => Op::Start(i),
+                    _ => Op::Remove(i, rng.gen()),
+                });
+            }
+        }
     }
     seq
 }
@@ -556,7 +567,9 @@ impl Check for C19 {
             });
         }
         let seq_json: Vec<_> = seq.iter().map(op_json).collect();
-        let refresh_plan: Vec<bool> = seq.iter().map(|_| cx.rng.gen_bool(0.7)).collect();
+        // the step right after a spontaneous death mostly runs without the registry refresh (the daemon's control path
+        // and library users do not refresh): the operation itself then meets the dead process
+        let refresh_plan: Vec<bool> = seq.iter().enumerate().map(|(i, _)| if i > 0 && matches!(seq[i - 1], Op::Die(_)) { cx.rng.gen_bool(0.25) } else { cx.rng.gen_bool(0.7) }).collect();
         let base = run_sequence(&rt, &seq, &refresh_plan, &BTreeMap::new());
         cx.eval();
         cx.count("runs:fault-free");
